@@ -44,6 +44,7 @@ typedef struct
 static Shared *sh ;
 static FILE *outf ;
 static long case_idx = -1, resume_from = 0 ;
+static double case_t0 ;
 static int in_case = 0, case_viols = 0 ;
 static uint64_t transcript ;
 static int replay_mode = 0, replay_hit = 0 ;
@@ -80,6 +81,13 @@ void vl_not_exhaustive (const char *why)
 {	if (! sh->not_exhaustive) { sh->not_exhaustive = 1 ; snprintf (sh->why, sizeof (sh->why), "%s", why) ; }
 }
 
+/* cases are dealt to the workers by a mixed index, not round-robin: harnesses emit their cases in regular patterns (route A, route B,
+** route A, ...) and a plain modulo would hand all the expensive ones to the same workers */
+static inline int shard_of (long idx)
+{	uint64_t x = (uint64_t) idx * 0x9E3779B97F4A7C15ULL ; x ^= x >> 29 ;
+	return (int) ((x >> 17) % (uint64_t) vl_opts.nshards) ;
+}
+
 int vl_case (const char *fmt, ...)
 {	va_list ap ;
 	if (in_case) { fprintf (stderr, "engine error: vl_case inside a case (%s)\n", cur_spec_local) ; _exit (70) ; }
@@ -91,7 +99,7 @@ int vl_case (const char *fmt, ...)
 		}
 	else
 	{	if (case_idx < resume_from) return 0 ;
-		if (vl_opts.nshards > 1 && (case_idx % vl_opts.nshards) != vl_opts.shard) return 0 ;
+		if (vl_opts.nshards > 1 && shard_of (case_idx) != vl_opts.shard) return 0 ;
 		{	static long selected ;	/* cases this worker got as far as considering */
 			if ((++ selected & 31) == 0 && vl_deadline_passed ())
 				vl_not_exhaustive ("global deadline reached during enumeration") ;
@@ -102,7 +110,7 @@ int vl_case (const char *fmt, ...)
 	memcpy (sh->cur_spec, cur_spec_local, SPEC_LEN) ;
 	sh->cur_idx = case_idx ;
 	sh->heartbeat ++ ;
-	in_case = 1 ; case_viols = 0 ; transcript = VL_H0 ;
+	in_case = 1 ; case_viols = 0 ; transcript = VL_H0 ; case_t0 = now_s () ;
 	if (replay_mode) printf ("CASE %s\n", cur_spec_local) ;
 	return 1 ;
 }
@@ -113,7 +121,7 @@ int vl_peek (void)
 {	long idx = case_idx + 1 ;
 	if (replay_mode) return 1 ;
 	if (idx < resume_from) return 0 ;
-	if (vl_opts.nshards > 1 && (idx % vl_opts.nshards) != vl_opts.shard) return 0 ;
+	if (vl_opts.nshards > 1 && shard_of (idx) != vl_opts.shard) return 0 ;
 	return 1 ;
 }
 void vl_skip (long n) { case_idx += n ; }
@@ -133,6 +141,7 @@ int vl_case_violations (void) { return case_viols ; }
 void vl_end (int nontrivial, uint64_t outcome)
 {	if (! in_case) return ;
 	in_case = 0 ;
+	if (now_s () - case_t0 > 5.0) fprintf (stderr, "slow case (%.1f s): %s\n", now_s () - case_t0, cur_spec_local) ;	/* diagnostic only */
 	sh->evals ++ ;
 	if (nontrivial) sh->nontrivial ++ ;
 	outcome = vl_hash_u64 (transcript, outcome) ;
